@@ -15,6 +15,9 @@ pub struct VErr { pub id: Ghost<int> }
 #[verifier::external_body] pub struct Buffer { x: usize }          // Vec<CompiledItem>
 #[verifier::external_body] pub struct Product { x: usize }         // Rc<MScriptFile>
 pub uninterp spec fn with_mmm(p: &PathV) -> PathV;
+// the spelling everything downstream sees: `.` components dropped (D112: labels, output file and the importer's paths must not depend on `./x.ms` vs `x.ms`)
+pub uninterp spec fn no_curdir(p: &PathV) -> PathV;
+impl PathV { #[verifier::external_body] pub fn without_cur_dir(&self) -> (r: PathV) ensures r == no_curdir(self) { unimplemented!() } }
 impl PathV { #[verifier::external_body] pub fn with_extension(&self, e: &str) -> (r: PathV) ensures r == with_mmm(self) { unimplemented!() } }
 pub uninterp spec fn source_of(p: &PathV) -> Result<SrcText, VErr>;
 #[verifier::external_body] pub fn perform_file_io_in(p: &PathV) -> (r: Result<SrcText, VErr>) ensures r == source_of(p) { unimplemented!() }
@@ -42,6 +45,9 @@ def build(repo):
         Rule("R3", "LOGGER_INSTANCE . set ( $$a ) . expect ( $m ) ;", "", why="logger set-up dropped (its `expect` -- a second compile in one process -- is not part of this contract)"),
         Rule("R3", "let start_time = Instant :: now ( ) ;", "", why="timing for the progress output"),
         Rule("R1", "let input_path = input_path . as_ref ( ) ;", "", why="AsRef<Path>: the path itself"),
+        Rule("R9", "let input_path : PathBuf = input_path . as_ref ( ) . components ( ) . filter ( | $c | ! matches ! ( $c , std :: path :: Component :: CurDir ) ) . collect ( ) ;", "let input_path = input_path . without_cur_dir ( ) ;",
+             why="components().filter(not CurDir).collect(): the path without `.` components (assumed std contract; the same chain Import::path_from_parts and Program::new use)"),
+        Rule("R1", "let input_path = input_path . as_path ( ) ;", "let input_path = & input_path ;", why="PathBuf::as_path"),
         Rule("R3", ". to_err_vec ( )", "", why="error -> vector of errors: still an error"),
         Rule("R9", ". unwrap_or_default ( )", ". verif_recover ( )", why="Result::unwrap_or_default: the value, or SOME default when it failed"),
         Rule("R6", "compile_from_str_default_side_effects ( input_path , & output_path , & file_contents , FileManager :: no_mock ( ) , )", "compile_from_str_default_side_effects ( input_path , & output_path , & file_contents )", why="the translation of the source: abstract callee (file manager argument dropped)"),
@@ -56,13 +62,13 @@ def build(repo):
 pub fn compile(input_path: &PathV, output_bin: bool, verbose: bool, output_to_file: bool, override_no_pb: bool, world: &mut World) -> (r: Result<Option<Product>, VErr>)
     ensures
         // the source cannot be read, or its translation reports diagnostics: compile fails, nothing is written, nothing is handed back
-        (source_of(input_path) is Err || translated(input_path, &with_mmm(input_path), &source_of(input_path)->Ok_0) is Err) ==> r is Err && final(world).written@ == old(world).written@,
+        (source_of(&no_curdir(input_path)) is Err || translated(&no_curdir(input_path), &with_mmm(&no_curdir(input_path)), &source_of(&no_curdir(input_path))->Ok_0) is Err) ==> r is Err && final(world).written@ == old(world).written@,
         // success, to a file: exactly one file, `<input>.mmm`, with the buffer this source was translated to, in the format asked for; no in-memory program
-        (r is Ok && output_to_file) ==> r->Ok_0 is None && source_of(input_path) is Ok && translated(input_path, &with_mmm(input_path), &source_of(input_path)->Ok_0) is Ok
-            && final(world).written@ == old(world).written@.push((with_mmm(input_path), translated(input_path, &with_mmm(input_path), &source_of(input_path)->Ok_0)->Ok_0, output_bin)),
+        (r is Ok && output_to_file) ==> r->Ok_0 is None && source_of(&no_curdir(input_path)) is Ok && translated(&no_curdir(input_path), &with_mmm(&no_curdir(input_path)), &source_of(&no_curdir(input_path))->Ok_0) is Ok
+            && final(world).written@ == old(world).written@.push((with_mmm(&no_curdir(input_path)), translated(&no_curdir(input_path), &with_mmm(&no_curdir(input_path)), &source_of(&no_curdir(input_path))->Ok_0)->Ok_0, output_bin)),
         // success, in memory: the SAME buffer sealed for the interpreter; no file
-        (r is Ok && !output_to_file) ==> final(world).written@ == old(world).written@ && source_of(input_path) is Ok && translated(input_path, &with_mmm(input_path), &source_of(input_path)->Ok_0) is Ok
-            && Ok::<Product, VErr>(r->Ok_0->Some_0) == sealed(&with_mmm(input_path), translated(input_path, &with_mmm(input_path), &source_of(input_path)->Ok_0)->Ok_0) && r->Ok_0 is Some,
+        (r is Ok && !output_to_file) ==> final(world).written@ == old(world).written@ && source_of(&no_curdir(input_path)) is Ok && translated(&no_curdir(input_path), &with_mmm(&no_curdir(input_path)), &source_of(&no_curdir(input_path))->Ok_0) is Ok
+            && Ok::<Product, VErr>(r->Ok_0->Some_0) == sealed(&with_mmm(&no_curdir(input_path)), translated(&no_curdir(input_path), &with_mmm(&no_curdir(input_path)), &source_of(&no_curdir(input_path))->Ok_0)->Ok_0) && r->Ok_0 is Some,
         r is Err ==> final(world).written@ == old(world).written@,
 {{
 {render(b, 1)}
